@@ -38,7 +38,7 @@ class TemplateError(Exception):
 
 
 GHOST_OK = re.compile(r'^(proof\s*\{|let\s+ghost\b|let\s+tracked\b|assert\b|assert_by\b|reveal\b|hide\s*\(|broadcast\s+use\b|//|/\*|\}|$)')
-LABEL_RE = re.compile(r'//#\s*([A-Z0-9,]+)\s+(\S+)\s*$')
+LABEL_RE = re.compile(r'//#\s*([A-Z0-9,]+|-)\s+(\S+)\s*$')
 
 
 class Seg:
@@ -133,7 +133,7 @@ def labelled(text_lines, default_props, item, kind, asm, default_tag=None):
         m = LABEL_RE.search(l)
         if not m:
             continue
-        props = m.group(1).split(',')
+        props = [] if m.group(1) == '-' else m.group(1).split(',')
         tag = m.group(2)
         if tag in asm.labels and asm.labels[tag]['item'] != item:
             raise TemplateError("label %s used twice" % tag)
